@@ -441,10 +441,13 @@ def differential(harness_exe, driver_exe, cases, scratch, name="cases", timeout=
     # a case that did not finish in the batch (watchdog / timeout) is run again on its own with a long watchdog: a
     # slow case on a loaded machine is not a hang.  The verdict stands when any of the repeats dies too.
     retried = 0
+    confirmed_hang = False
     for i, a in enumerate(impl):
         # only a hang verdict depends on the machine's load; an abort, a signal or a sanitizer report stands as it is
         if not a.startswith("CRASH:") or retried >= 8 or not ("harness watchdog" in a or a.startswith("CRASH: rc=-9 ")):
             continue
+        if confirmed_hang:
+            continue          # one confirmed hang is a violation already; the others keep their batch verdict
         retried += 1
         cf3 = os.path.join(scratch, name + ".one.txt")
         with open(cf3, "w") as f:
@@ -458,6 +461,7 @@ def differential(harness_exe, driver_exe, cases, scratch, name="cases", timeout=
                 good = lines[0]
             else:
                 good = None
+                confirmed_hang = True
                 impl[i] = "CRASH: rc=%s %s" % (rc, " ".join(err.strip().split("\n")[-12:])[:600])
                 break
         if good is not None:
